@@ -205,6 +205,9 @@ class Builtins:
             return z3.Or([self.cls_pred(v_term, x, st, node) for x in c.items]) if c.items else z3.BoolVal(False)
         if isinstance(c, VVal):
             return th.isinst_dyn(v_term, c.term)
+        if isinstance(c, (VModule, VBuiltin)):
+            # a class the lattice does not know (types.GenericAlias ...): an opaque class value
+            return th.isinst_dyn(v_term, self.toVal(c, st))
         raise OutOfSubset('isinstance class argument', node)
 
     def bi_isinstance(self, args, kwargs, st, node):
@@ -370,6 +373,10 @@ class Builtins:
             store = VMapB(th.empty_set, th.dflt_map)
         nv = self.toVal(n, st)
         st.env[key] = VMapB(z3.Store(store.has, nv, True), z3.Store(store.get, nv, self.toVal(v, st)))
+        if isinstance(n, VVal) and n.py is not None and isinstance(v, VVal) and v.kind is not None:
+            if not hasattr(self, 'obj_attr_kinds'):
+                self.obj_attr_kinds = {}
+            self.obj_attr_kinds[(str(ov), n.py[1])] = v.kind       # the kind of what was stored is the kind of what is read back
         return [(self.none(), st)]
 
     def is_mutable_root(self, o, st) -> bool:
@@ -1187,6 +1194,12 @@ class Builtins:
             return [(VBool(z3.Or([self.toVal(it_, st) == cv for it_ in items]) if items else z3.BoolVal(False)), st)]
         if name == 'cm_enter':
             return [(self.mkval(th.fn('cm_enter', th.Val, th.Val)(V(0)), None), st)]
+        if name == 'made':
+            # made(ret("mod:func", args...)): that call of a function under contract was made on this path
+            log = st.env.get('$calls')
+            items = log.items if isinstance(log, VTuple) else ()
+            fv = V(0)
+            return [(VBool(z3.Or([it_.term == fv for it_ in items]) if items else z3.BoolVal(False)), st)]
         if name == 'called':
             # called(fn): how many times the user callable fn was invoked on this path (ghost call log)
             log = st.env.get('$calls')
